@@ -109,6 +109,22 @@ func TestC02(t *testing.T) {
 		V.HarnessError(t, "priming: %v", err)
 	}
 
+	// user agents 0-2 are known to the proxy through a UDP listener (they have
+	// sent a request before): a TCP Via entry naming them must still be answered over TCP
+	for i, entry := range []int{0, 0, 1} {
+		ua := s.uas[i]
+		l := s.in.cfg.Listens[entry]
+		msg := fmt.Sprintf("OPTIONS sip:nobody@unrouted.invalid SIP/2.0\r\nVia: SIP/2.0/UDP %s:5060;branch=z9hG4bKc02prime%d\r\nFrom: <sip:p@verif.invalid>;tag=p\r\nTo: <sip:nobody@unrouted.invalid>\r\nCall-ID: verif-c02prime-%d\r\nCSeq: 1 OPTIONS\r\nContent-Length: 0\r\n\r\n", ua.ip, i, i)
+		s.model.learnRequest(s.model.transport(entry, "udp"), ua.ip, &AMsg{IsReq: true, Hdrs: []AHdr{{Kind: hVia, Vias: []AVia{{Host: ua.ip}}}}})
+		send := func(b []byte) error { return ua.sendUDP(l.Addr, l.UDPPort, b) }
+		if err := send([]byte(msg)); err != nil {
+			V.HarnessError(t, "priming send: %v", err)
+		}
+		if rs, err := s.in.settle(send, 0); err != nil || len(labMessages(rs)) != 0 {
+			V.HarnessError(t, "priming request misbehaved: %v\n%s", err, labDescribe(rs))
+		}
+	}
+
 	rcheck(t, "single", V.N(2000, 8000), func(rt *rapid.T) {
 		entry := rapid.IntRange(0, 2).Draw(rt, "entry")
 		l := s.in.cfg.Listens[entry]
